@@ -499,6 +499,22 @@ def build_tree_rules(F, res):
                   "exactly the trivia kinds" if w in ("Advance", "after") else "only trivia kinds"),
                sub and rng_ok and plus == want_plus and w != "?" and w != "Close", where=bt.loc(t["ln"]),
                how="pred=%s admits %s; range pos..len: %s; +%s" % (pred, sorted(q), rng_ok, plus))
+    # which Open-arm flush is the general one (every kind of node that has no arm of its own in the match on the node kind)
+    open_info = []
+    ksw = [b for b in sorted(region.get("Open", ())) if bt.term(b)["k"] == "switch" and bt.term(b).get("ty") == "u16"]
+    for b, t in eats:
+        if b in region.get("Open", ()) and b not in after:
+            c = classify(b, t)
+            pred = c[1] if c else None
+            q = {k for k in kinds if pred and pure.call(pred, [("e", SK, k)]) == 1}
+            general = False
+            for sb in ksw:
+                tt = bt.term(sb)
+                explicit = [x for _v, x in tt["targets"] if x != tt["otherwise"]]
+                if b == tt["otherwise"] or bt.can_reach(tt["otherwise"], [b], avoid=explicit + [swb]):
+                    general = True
+            open_info.append({"line": t["ln"], "pred": pred, "all_trivia": q == trivia, "general": general or not ksw})
+    res.analysed["open_flushes"] = open_info
     res.ob("L7", "advance-one-eat", "the Advance arm calls eat_token exactly once (pending trivia + exactly one token)",
            counts["Advance"] == 1, where=bt.loc(), how=str(counts))
     res.ob("L7", "close-eats-nothing", "the Close arm eats no token", counts["Close"] == 0, where=bt.loc(), how=str(counts))
@@ -589,6 +605,47 @@ def build_tree_rules(F, res):
            len(tr) == 1 and tr[0]["how"] == "move", where=bt.loc(), how=str([(e["how"], e["ln"]) for e in tr]))
 
 
+def lexer_reads_its_whole_input(F, res, rule="L2"):
+    """The ranges the lexer reports are offsets into the text it was handed; the tree builder slices the text parse_module was handed
+    with them, and rename judges a new name by lexing it. Both lean on GleamLexer::new lexing exactly its argument: the text given to
+    the generated lexer is the parameter itself - nothing stripped, trimmed or sliced off first (a byte order mark dropped here shifts
+    every token by three bytes for the builder and makes a name with a byte order mark in front one valid identifier for rename)."""
+    f = F.fns.get("syntax::lexer::GleamLexer::new")
+    if f is None or not f.blocks:
+        res.anchor_missing(rule, "syntax::lexer::GleamLexer::new")
+        return
+    d = FL.Defs(f)
+    mk = [(b, t) for b, t in f.calls() if FL.short(callee(t) or callee_def(t) or "").rsplit("::", 1)[-1] in ("lexer", "lexer_with_extras")]
+    ok, how = bool(mk), []
+    for b, t in mk:
+        o = d.origin_op(t["args"][0])
+        direct = o.get("k") == "arg" and o.get("n") == 1
+        how.append("line %s: input is %s" % (t["ln"], "the parameter itself" if direct else
+                                             ("the answer of %s" % FL.short(callee(o["t"]) or callee_def(o["t"]) or "?") if o.get("k") == "call" else o.get("k"))))
+        ok = ok and direct
+    res.ob(rule, "lexer/lexes-its-argument", "GleamLexer::new hands the generated lexer the text it was given, whole", ok, where=f.loc(), how="; ".join(how) or "no lexer constructed")
+
+
+def leaves_start_with_their_token(F, res, rule):
+    """A node begins at its first token: before build_tree starts a node of a kind that has no arm of its own (every kind but the
+    ones that take their doc comments in), it has emitted *all* pending trivia. The one-token nodes - NAME, NAME_REF, TYPE_NAME, LABEL,
+    LITERAL - are read through `first token` accessors, and a comment in front of a documented field or parameter would otherwise be
+    that first token: `VariantField::label().text()` answers the comment. (Losslessness does not need this: C01 asks only that the
+    predicate admits nothing but trivia.)"""
+    from lib import report as _R
+    tmp = _R.Result("tmp")
+    try:
+        build_tree_rules(F, tmp)
+    except Exception as e:  # noqa
+        res.anchor_missing(rule, "build_tree could not be analysed: %r" % (e,))
+        return
+    info = tmp.analysed.get("open_flushes") or []
+    gen = [x for x in info if x["general"]]
+    res.ob(rule, "build_tree/nodes-start-at-their-first-token", "the general Open arm of build_tree flushes every pending trivia token before it starts the node "
+           "(only the kinds that have an arm of their own keep doc comments for the inside)", bool(gen) and all(x["all_trivia"] for x in gen),
+           where="crates/syntax/src/parser.rs", how="general flush sites: %s" % [(x["line"], (x["pred"] or "?").rsplit("::", 1)[-1], x["all_trivia"]) for x in gen])
+
+
 def run(F, res, tier):
     R = pcache.results(F)
     res.analysed.update({"functions": ["syntax::parser::parse_module", "syntax::parser::module", BT, EAT,
@@ -596,6 +653,7 @@ def run(F, res, tier):
                          "lexer_rules": len(R["lex_kinds"])})
     lexer_rules(F, res)
     lexer_next(F, res)
+    lexer_reads_its_whole_input(F, res)
     parse_module_rules(F, res)
     PM.check_field_writers(F, res, "L4", with_fuel=False)
     PM.check_model(F, res, "L4m", with_fuel=False)
